@@ -333,7 +333,7 @@ func c04Run(c *Check, pool *NodePool, w int, dir string, files map[string]string
 }
 
 func runC04(c *Check) {
-	c.Rule = "a used-export module extended by every unused top-level statement of a ~150 statement alphabet (hidden probes in getters, computed keys, spreads, template holes, valueOf/toString coercions, in/instanceof, unbound globals, tagged templates, new, default values, destructuring, class static blocks/fields/computed members/heritage, proxies, builtin constructors), singly and in pairs, bundled with tree shaking default/true/false x esm/cjs/iife x minify and compared with native execution (log, thrown error, export surface); annotation cases (@__PURE__, @__NO_SIDE_EFFECTS__, pure:, package.json sideEffects) where only annotated lines may disappear; distinct = distinct native logs"
+	c.Rule = "a used-export module extended by every unused top-level statement of a ~150 statement alphabet (hidden probes in getters, computed keys, spreads, template holes, valueOf/toString coercions, in/instanceof, unbound globals, tagged templates, new, default values, destructuring, class static blocks/fields/computed members/heritage, proxies, builtin constructors), singly and in pairs, bundled with tree shaking default/true/false x esm/cjs/iife x minify and compared with native execution (log, thrown error, export surface); annotation cases (@__PURE__, @__NO_SIDE_EFFECTS__, pure:, package.json sideEffects) where only annotated lines may disappear; distinct = distinct native logs; empty/identity functions called from live code and reassigned only from unused code; cjs/iife bundles run under a \"use strict\" banner"
 	c.Assump = []string{"Node 20 executes the unbundled files natively as reference", "with annotations the only permitted difference is the disappearance of log lines lexically inside annotated calls/modules (marked opt: by the generator)"}
 	pool := NewNodePool("")
 	defer pool.Close()
